@@ -6,10 +6,10 @@ CONSTANTS NW = 2
  MaxObj = 2
  MaxL = 3
  MaxQ = 5
- NKeys = 2
- SCN = "once"
+ NKeys = 3
+ SCN = "keys"
  NT = 2
- K = 2
+ K = 3
  ND = 1
  BCAST = 0
 INVARIANT OK
@@ -17,4 +17,5 @@ INVARIANT ExactlyOnePlace
 INVARIANT RunnableSaved
 INVARIANT RunOnce
 INVARIANT ReapOnce
+INVARIANT KeyConsistent
 CHECK_DEADLOCK TRUE
